@@ -347,13 +347,16 @@ static inline void hash_bytes(const void *p, size_t n)
 	R.hash = h;
 }
 
+static bool trace_muted;
+void sim_trace_mute(bool on) { trace_muted = on; }
+
 void sim_ev(const char *tag, int64_t a, int64_t b, int64_t c)
 {
 	int64_t v[3] = { a, b, c };
 	R.events++;
 	hash_bytes(tag, strlen(tag));
 	hash_bytes(v, sizeof(v));
-	if (R.tracing)
+	if (R.tracing && !trace_muted)
 		tb_printf(&R.trace, "%6llu %s %lld %lld %lld\n",
 			  (unsigned long long)R.events, tag, (long long)a,
 			  (long long)b, (long long)c);
@@ -969,6 +972,8 @@ void simrt_run_end(void) __attribute__((weak));
 
 static void run_begin(uint64_t index)
 {
+	trace_muted = false;
+	sim_arg_evals = 0;
 	sim_lib_restart();	/* the first call takes the snapshot */
 	if (!harness_inited) {
 		harness_inited = true;
